@@ -180,6 +180,9 @@ func (fl *Flow) edgeFacts(from, to *ssa.BasicBlock) []Fact {
 func (fl *Flow) transfer(s FactSet, in ssa.Instruction) {
 	switch x := in.(type) {
 	case *ssa.Store:
+		if u, ok := x.Val.(*ssa.UnOp); ok && u.X == x.Addr {
+			break // `return x` with named results stores the variable into itself
+		}
 		fl.killAddr(s, x.Addr)
 	case *ssa.MapUpdate:
 		fl.killSub(s, fl.K.Key(x.Map))
@@ -235,8 +238,12 @@ func (fl *Flow) killCall(s FactSet, c *ssa.CallCommon) {
 }
 
 // NewFlow runs the analysis.
-func NewFlow(p *Prog, fn *ssa.Function) *Flow {
+func NewFlow(p *Prog, fn *ssa.Function) *Flow { return NewFlowOpt(p, fn, false) }
+
+// NewFlowOpt: with normGetters, protobuf getter calls are keyed as field loads.
+func NewFlowOpt(p *Prog, fn *ssa.Function, normGetters bool) *Flow {
 	fl := &Flow{P: p, Fn: fn, K: NewKeyer(p, fn), in: map[*ssa.BasicBlock]FactSet{}, mods: modSetsOf(p)}
+	fl.K.NormGetters = normGetters
 	if len(fn.Blocks) == 0 {
 		return fl
 	}
@@ -397,7 +404,7 @@ func (m *modSets) of(fn *ssa.Function) map[string]bool {
 func (m *modSets) ofCall(c *ssa.CallCommon) map[string]bool {
 	if c.IsInvoke() {
 		res := map[string]bool{}
-		for _, fn := range m.implsOf(c.Method) {
+		for _, fn := range m.implsOfCall(c) {
 			for f := range m.of(fn) {
 				res[f] = true
 			}
@@ -411,6 +418,36 @@ func (m *modSets) ofCall(c *ssa.CallCommon) map[string]bool {
 		return m.of(mc.Fn.(*ssa.Function))
 	}
 	return nil
+}
+
+// implsOfCall resolves an interface call by the static type of its receiver value
+// (more precise than the method's declaring interface when interfaces are embedded).
+func (m *modSets) implsOfCall(c *ssa.CallCommon) []*ssa.Function {
+	iface, ok := c.Value.Type().Underlying().(*types.Interface)
+	if !ok {
+		return m.implsOf(c.Method)
+	}
+	key := c.Value.Type().String() + "." + c.Method.Name()
+	if r, ok := m.impl[key]; ok {
+		return r
+	}
+	var out []*ssa.Function
+	for _, n := range m.p.Implementations(iface, false) {
+		if fn := m.p.MethodOf(n, c.Method.Name()); fn != nil {
+			out = append(out, fn)
+		}
+	}
+	// instantiated generic types (e.g. crypto.Multi[T])
+	for _, f := range m.p.ModFuncs {
+		if f.Name() == c.Method.Name() && f.Origin() != nil && f.Signature.Recv() != nil && f.Synthetic == "" {
+			rt := f.Signature.Recv().Type()
+			if types.Implements(rt, iface) || types.Implements(types.NewPointer(rt), iface) {
+				out = append(out, f)
+			}
+		}
+	}
+	m.impl[key] = out
+	return out
 }
 
 // implsOf returns the module functions that may be the target of an interface method
